@@ -41,6 +41,8 @@ func main() {
 		cmdFormats(os.Args[2:])
 	case "namer":
 		cmdNamer(os.Args[2:])
+	case "pkgwide":
+		cmdPkgWide(os.Args[2:])
 	case "rules":
 		cmdRules(os.Args[2:])
 	default:
